@@ -216,7 +216,7 @@ pub fn crash_check(prop: &str, suites: Vec<Suite>, accept: &[&str], plan: CrashP
             }
             // findings of other properties must not use up the cap of this check's own
             for f in findings {
-                let mine = super::tag_of(&f.msg).is_some_and(|t| accept.contains(&t.as_str()));
+                let mine = super::accepted(accept, &f.msg);
                 if !mine {
                     a.foreign += 1;
                 } else if a.findings.len() < 64 {
@@ -224,7 +224,7 @@ pub fn crash_check(prop: &str, suites: Vec<Suite>, accept: &[&str], plan: CrashP
                 }
             }
             for m in layout_findings {
-                let mine = super::tag_of(&m).is_some_and(|t| accept.contains(&t.as_str()));
+                let mine = super::accepted(accept, &m);
                 if !mine {
                     a.foreign += 1;
                 } else if a.findings.len() < 64 {
@@ -266,8 +266,7 @@ pub fn crash_check(prop: &str, suites: Vec<Suite>, accept: &[&str], plan: CrashP
         }
         // sequential-oracle violations seen while producing histories
         for (hist, msg) in r.violations {
-            let tag = super::tag_of(&msg).unwrap_or_default();
-            if accept.contains(&tag.as_str()) {
+            if super::accepted(accept, &msg) {
                 report.violation(
                     format!("{}|{}|{}", s.name, seq::describe_hist(s, &hist).join(";"), msg.lines().next().unwrap_or("")),
                     format!("suite {} history {:?}\n{msg}", s.name, seq::describe_hist(s, &hist)),
@@ -281,8 +280,7 @@ pub fn crash_check(prop: &str, suites: Vec<Suite>, accept: &[&str], plan: CrashP
         let mut fs = a.findings;
         fs.sort_by_key(|(_, h, _, _)| h.len());
         for (suite, hist, msg, desc) in fs {
-            let tag = super::tag_of(&msg).unwrap_or_default();
-            if !accept.contains(&tag.as_str()) {
+            if !super::accepted(accept, &msg) {
                 foreign += 1;
                 continue;
             }
